@@ -3,8 +3,10 @@
 usage: import_seeded.py <id> <detecting checks comma separated> <summary of check outputs file>"""
 import json, os, re, shutil, sys
 pid = sys.argv[1]
-src = "/tmp/mut_out/%s" % pid
-dst = "/verif/seeded/%s" % pid
+srcroot = sys.argv[3] if len(sys.argv) > 3 else "/tmp/mut_out"
+name = sys.argv[4] if len(sys.argv) > 4 else pid
+src = "%s/%s" % (srcroot, pid)
+dst = "/verif/seeded/%s" % name
 os.makedirs(dst, exist_ok=True)
 for f in ("patch.diff", "demo.cpp", "notes.md"):
     if os.path.exists(os.path.join(src, f)):
@@ -16,7 +18,12 @@ m = re.search(r"(?is)(needs|to manifest|manifest)[^\n]*\n(.{0,600})", notes)
 if m:
     needs = m.group(0)[:600]
 detect = json.load(open(sys.argv[2])) if len(sys.argv) > 2 and os.path.exists(sys.argv[2]) else {}
-meta = dict(property=pid, source="independent sub-agent given only the property text and a scratch worktree",
+summary = ""
+for ln in notes.split("\n"):
+    if ln.strip().startswith("#"):
+        summary = ln.strip("# ").strip()
+        break
+meta = dict(property=pid, summary=summary, source="independent sub-agent given only the property text and a scratch worktree",
             files_changed=sorted(set(re.findall(r"^\+\+\+ b/(\S+)", open(os.path.join(dst, "patch.diff")).read(), flags=re.M))),
             needs_to_manifest=needs,
             confirmed=dict(how="tools/confirm_seeded.sh: scratch worktree; demo built against unmodified and modified headers; "
